@@ -203,7 +203,7 @@ Flags(i) ==
     cancel |-> step /\ CancelAnte(nd, s),
     mm |-> step /\ EarlierMM(nd, s) # {},
     mmDiff |-> step /\ EarlierMM(nd, s) # {} /\ nd.args.app # nd.args.pair,
-    mmPartial |-> step /\ nd.args.app = nd.args.pair /\ \E o \in EarlierMM(nd, s) : o.status = "PM",
+    mmPartial |-> step /\ EarlierMM(nd, s) # {} /\ nd.args.app = nd.args.pair /\ \E o \in EarlierMM(nd, s) : o.status = "PM",
     completed |-> step /\ \E o \in s2.orders : o.status = "C" /\ Was(s, o),
     expired |-> step /\ \E o \in s2.orders : o.status = "E" /\ Was(s, o),
     canceled |-> step /\ \E o \in s2.orders : o.status = "X" /\ Was(s, o),
